@@ -45,6 +45,27 @@ def run_history(ctx, cls, mod, its, blk0, ops):
             if sender.value != new:
                 fails.append(("observer told a value the installed block does not decode to", i, obid))
         return ob
+
+    class Client:
+        """odd observer ids are bound methods, as everything in geckolib.automation registers: every `client.on_change`
+        evaluates to a NEW bound-method object that is equal to, but not identical with, the one registered before"""
+
+        def __init__(self, obid):
+            self.f = mk(obid)
+
+        def on_change(self, sender, old, new):
+            self.f(sender, old, new)
+
+    class Lookup(dict):
+        def setdefault(self, obid, default=None):
+            if obid not in self:
+                self[obid] = Client(obid) if obid % 2 else default
+            return self[obid]
+
+        def __getitem__(self, obid):
+            v = dict.__getitem__(self, obid)
+            return v.on_change if isinstance(v, Client) else v
+    observers = Lookup()
     percall = []
     registered = [set() for _ in its]
     for op in ops:
@@ -142,8 +163,9 @@ def run(ctx):
         seen = set()
         its = [x for x in its if not (x["tag"] in seen or seen.add(x["tag"]))][:10]
         blk0 = bytes(rng.randrange(256) for _ in range(1024))
-        ops = [("W", i, 0) for i in range(len(its)) if rng.random() < 0.85]
-        ops += [("W", i, 0) for i in range(len(its)) if rng.random() < 0.2]   # duplicate registrations
+        base = h % 2          # odd observer ids are bound methods (see Client): half of the histories register and re-register those
+        ops = [("W", i, base) for i in range(len(its)) if rng.random() < 0.85]
+        ops += [("W", i, base) for i in range(len(its)) if rng.random() < 0.2]   # duplicate registrations
         nops = rng.randrange(8, 22)
         for _ in range(nops):
             r = rng.random()
